@@ -90,7 +90,7 @@ def prepare_unrestricted_aminusb(data: IOData, allow_changes: bool, filename: st
     )
 
     # Convert
-    return attrs.evolve(data, mo=convert_to_unrestricted(data.mo))
+    return _evolve(data, mo=convert_to_unrestricted(data.mo))
 
 
 def prepare_segmented(data: IOData, keep_sp: bool, allow_changes: bool, filename: str, fmt: str):
@@ -150,4 +150,16 @@ def prepare_segmented(data: IOData, keep_sp: bool, allow_changes: bool, filename
     )
 
     # Convert
-    return attrs.evolve(data, obasis=convert_to_segmented(data.obasis, keep_sp))
+    return _evolve(data, obasis=convert_to_segmented(data.obasis, keep_sp))
+
+
+def _evolve(data: IOData, **changes) -> IOData:
+    """Make a shallow copy of data with some attributes replaced.
+
+    When the object has orbitals, they define the number of electrons and the spin polarization.
+    A value of nelec or spinpol that was assigned before the orbitals is superseded,
+    and the constructor refuses it in combination with orbitals, so it is not passed on.
+    """
+    if data.mo is not None:
+        changes = {"nelec": None, "spinpol": None, **changes}
+    return attrs.evolve(data, **changes)
